@@ -8,8 +8,8 @@ from bcheck import urlref as R
 from ural import canonicalize_url
 
 FN = "ural.canonicalize_url.canonicalize_url"
-MALFORMED = {"%", "%4", "%zz", "%E9", "%2541", "%25"}
-TWIN = {"a": "%61", "é": "%c3%a9", " ": "%20", "~": "%7e", "B": "%42", "%41": "A", "%C3%A9": "é", "%20": " ", "%7e": "~"}
+MALFORMED = {"%", "%4", "%zz", "%E9", "%2541", "%25", "%\uff11a"}
+TWIN = {"\xa0": "%C2%A0", "%C2%A0": "\xa0", "a": "%61", "é": "%c3%a9", " ": "%20", "~": "%7e", "B": "%42", "%41": "A", "%C3%A9": "é", "%20": " ", "%7e": "~"}
 
 
 def canon(u, **kw):
